@@ -116,8 +116,11 @@ func (t *SymbolTable) Var(v Variable) string {
 	return (*t)[int(v)-1024]
 }
 
+// Clone returns a copy that shares no storage with the receiver: copying only the slice
+// header would let two clones overwrite each other's symbols through spare capacity.
 func (t *SymbolTable) Clone() *SymbolTable {
-	newTable := *t
+	newTable := make(SymbolTable, len(*t))
+	copy(newTable, *t)
 	return &newTable
 }
 
